@@ -238,7 +238,7 @@ class PVLDecoder(object):
             # datetime.date objects will always be naive, so just return:
             return for_try_except(
                 ValueError,
-                datetime.strptime,
+                self._strptime,
                 repeat(value),
                 self.grammar.date_formats,
             ).date()
@@ -248,7 +248,7 @@ class PVLDecoder(object):
             try:
                 d = for_try_except(
                     ValueError,
-                    datetime.strptime,
+                    self._strptime,
                     repeat(value),
                     self.grammar.time_formats,
                 ).time()
@@ -256,7 +256,7 @@ class PVLDecoder(object):
                 try:
                     d = for_try_except(
                         ValueError,
-                        datetime.strptime,
+                        self._strptime,
                         repeat(value),
                         self.grammar.datetime_formats,
                     )
@@ -275,6 +275,19 @@ class PVLDecoder(object):
             return str(value)
         else:
             raise ValueError
+
+    @staticmethod
+    def _strptime(value: str, fmt: str):
+        """Like ``datetime.strptime()``, but raises ValueError if a
+        day-of-year does not exist in its year (strptime turns day 366
+        of a non-leap year into January 1st of the next year).
+        """
+        d = datetime.strptime(value, fmt)
+        if "%j" in fmt and d.year != int(value[:4]):
+            raise ValueError(
+                f'The day of year in "{value}" is not in that year.'
+            )
+        return d
 
     def is_leap_seconds(self, value: str) -> bool:
         """Returns True if *value* is a time that matches the
